@@ -27,7 +27,9 @@ func c13Cfgs(keep string) []RCfg {
 	hosts := [][2]string{{"proxy.example.com", "127.0.0.1"}, {"proxy2.example.com", "127.0.0.2"}, {"other.example.com", "127.0.0.3"}, {"nh.example.net", "127.0.2.1"}}
 	a := RCfg{Name: "svc.example.com", KeepNextHop: keep, Hosts: hosts,
 		Listens: []RListen{{Addr: "127.0.0.1", UDP: 5060, TCP: 5062, Backends: []string{"udp://127.0.1.1:7000"}},
-			{Addr: "127.0.0.2", UDP: 5060, Backends: []string{"udp://127.0.1.3:7000"}}}}
+			{Addr: "127.0.0.2", UDP: 5060, Backends: []string{"udp://127.0.1.3:7000"}},
+			// a listens entry without an address: bound to every local address
+			{Addr: "", UDP: 5096, Backends: []string{"udp://127.0.1.1:7000"}}}}
 	b := RCfg{Name: "other.example.com", Hosts: hosts, Listens: []RListen{{Addr: "127.0.0.3", UDP: 5060, Backends: []string{"udp://127.0.1.4:7000"}}}}
 	return []RCfg{a, b}
 }
@@ -37,8 +39,12 @@ func c13Msg(s *EnumSpec, v []int) *WMsg {
 	if s.Val(v, "arrival") == "tcp" {
 		lport = "5062"
 	}
+	if s.Val(v, "arrival") == "udp-wildcard" {
+		lport = "5096"
+	}
 	first := map[string]string{
-		"none": "", "addr-port": "<sip:127.0.0.1:" + lport + ";lr>", "alias-port": "<sip:proxy.example.com:" + lport + ";lr>",
+		"unresolvable-right-port": "<sip:edge-gw.invalid:" + lport + ";lr>",
+		"none":                    "", "addr-port": "<sip:127.0.0.1:" + lport + ";lr>", "alias-port": "<sip:proxy.example.com:" + lport + ";lr>",
 		"alias-noport": "<sip:proxy.example.com;lr>", "addr-noport": "<sip:127.0.0.1;lr>", "wrong-port": "<sip:127.0.0.1:5099;lr>",
 		"foreign-host-right-port": "<sip:127.0.2.2:" + lport + ";lr>", "other-listener": "<sip:127.0.0.2:5060;lr>", "other-listener-alias": "<sip:proxy2.example.com:5060;lr>",
 		"other-service": "<sip:127.0.0.3:5060;lr>",
@@ -76,7 +82,7 @@ func c13Msg(s *EnumSpec, v []int) *WMsg {
 	if len(entries) > 0 {
 		lines = append(lines, cur)
 	}
-	tr := strings.ToUpper(s.Val(v, "arrival"))
+	tr := strings.ToUpper(strings.TrimSuffix(s.Val(v, "arrival"), "-wildcard"))
 	return MsgSpec{Method: "OPTIONS", RURI: "sip:bob@svc.example.com", Vias: []string{"SIP/2.0/" + tr + " 127.0.0.9:5060;branch=z9hG4bKc13"}, Routes: lines,
 		From: "<sip:alice@ua.example.net>;tag=f1", To: "<sip:bob@nomatch.example.org>", CallID: "c13", CSeq: "1 OPTIONS"}.Build()
 }
@@ -107,15 +113,33 @@ func c13EvalIn(w *RelayWorld, cfgs []RCfg, v []int, seq int) (string, string, bo
 		}
 	}
 	w.Observe()
-	lport := 5060
-	if s.Val(v, "arrival") == "tcp" {
+	lport, lidx := 5060, 0
+	switch s.Val(v, "arrival") {
+	case "tcp":
 		lport = 5062
 		w.SendTCP(w.Client("c1", "127.0.0.9", "127.0.0.1:5062"), m.Render())
-	} else {
+	case "udp-wildcard":
+		lport, lidx = 5096, 2
+		w.SendUDP("127.0.0.9:5060", "127.0.0.1:5096", m.Render())
+	default:
 		w.SendUDP("127.0.0.9:5060", "127.0.0.1:5060", m.Render())
 	}
 	obs := w.Observe()
-	d := cfgs[0].refDecide(m, 0, lport)
+	d := cfgs[0].refDecide(m, lidx, lport)
+	if s.Val(v, "first") == "unresolvable-right-port" {
+		// the first entry names a host nobody can resolve: it is not the proxy's own entry, so it is the
+		// next hop, and since it cannot be reached nothing may be sent - least of all to a later entry
+		if vd := w.S.Verdict(); vd != "" {
+			return "health", vd, true
+		}
+		if d.PopOwn {
+			return "harness", "the reference takes an unresolvable name for the listener", false
+		}
+		if len(obs.Pkts)+len(obs.Dials) != 0 {
+			return "unresolvable-first-entry-skipped", fmt.Sprintf("request %s\nthe first Route entry names the unresolvable host edge-gw.invalid with the listener's port %d: it must not be consumed as the proxy's own entry; observed: %s", short(m.Render()), lport, obs.Summary()), true
+		}
+		return "", "", true
+	}
 	if d.NoModel != "" {
 		return "", "", false
 	}
@@ -199,7 +223,7 @@ func init() {
 	c13Spec = &EnumSpec{
 		Feats: []Feat{
 			{Name: "first", Vals: []string{"none", "addr-port", "alias-port", "alias-noport", "addr-noport", "wrong-port", "foreign-host-right-port", "other-listener", "other-service",
-				"own-display", "own-hdrpar", "own-user", "own-nolr", "other-listener-alias"}},
+				"own-display", "own-hdrpar", "own-user", "own-nolr", "other-listener-alias", "unresolvable-right-port"}},
 			{Name: "e1", Vals: ent},
 			{Name: "e2", Vals: ent},
 			{Name: "e3", Vals: ent, Quick: 3},
@@ -207,7 +231,7 @@ func init() {
 			{Name: "layout", Vals: []string{"one-line", "m1", "m2", "m3", "m4", "m5", "m6", "m7", "m8", "m9", "m10", "m11", "m12", "m13", "m14", "m15"}, Quick: 8},
 			{Name: "sep", Vals: []string{"comma", "comma-blank"}},
 			{Name: "keep", Vals: []string{"off", "on"}},
-			{Name: "arrival", Vals: []string{"udp", "tcp"}},
+			{Name: "arrival", Vals: []string{"udp", "tcp", "udp-wildcard"}},
 		},
 		Eval: c13Eval,
 		Seqs: [][]string{{"e1", "e2", "e3", "e4"}},
@@ -241,11 +265,15 @@ func init() {
 		if gaps == 0 && v[s.idx("sep")] != 0 {
 			return false
 		}
+		// the address-less listener is exercised without a first entry and with the unresolvable one
+		if s.Val(v, "arrival") == "udp-wildcard" && s.Val(v, "first") != "none" && s.Val(v, "first") != "unresolvable-right-port" {
+			return false
+		}
 		return true
 	}
 	addCheck(&Check{ID: "C13", Level: "exploration",
-		Rule:   "complete product: first Route entry (14 shapes: own by address/alias/with and without port, near misses, other listeners, decorated own entries) x remaining list of 0-3 (thorough 0-4) entries over a 7-entry alphabet (display names, URI parameters valued/valueless/lr in any position, header parameters, %-escapes) x every layout (all compositions into header lines, with/without blank after commas) x keep-next-hop x arrival transport; the emitted Route list is decoded by the independent reader and compared component-wise with the reference; second pass: all cases of one (keep, first entry) class fed into ONE long-lived world; non-trivial = request carries a Route",
-		Assume: []string{"two services, three listeners, host table with aliases; only the first emission is compared (exactly-one is C03)"},
+		Rule:   "complete product: first Route entry (15 shapes: own by address/alias/with and without port, near misses, other listeners, decorated own entries, an unresolvable host with the listener's port) x remaining list of 0-3 (thorough 0-4) entries over a 7-entry alphabet (display names, URI parameters valued/valueless/lr in any position, header parameters, %-escapes) x every layout (all compositions into header lines, with/without blank after commas) x keep-next-hop x arrival {UDP, TCP, UDP on a listens entry without address}; the emitted Route list is decoded by the independent reader and compared component-wise with the reference; second pass: all cases of one (keep, first entry) class fed into ONE long-lived world; non-trivial = request carries a Route",
+		Assume: []string{"two services, four listeners (one bound to every local address), host table with aliases; only the first emission is compared (exactly-one is C03)"},
 		Run: func(c *Ctx) {
 			c13Spec.Run(c)
 			c13AgedSpec().Run(c)
